@@ -200,6 +200,7 @@ pub fn run(r: &Report) {
                 rich: false,
                 short_unwrap: false,
                 shared_lines: false,
+                shared_pairs: vec![],
             },
             3,
         ),
@@ -217,6 +218,7 @@ pub fn run(r: &Report) {
                 rich: false,
                 short_unwrap: false,
                 shared_lines: false,
+                shared_pairs: vec![],
             },
             4,
         ),
